@@ -192,7 +192,8 @@ def c04_reason_family(rng, n):
                            "roc_reg", "sfla_reg", "rsplit_frac", "rsplit_int_ok", "rsplit_dec_ok",
                            "sfl_no_loss", "sfl_mismatch", "sfl_match", "oversell_other_af", "late_error",
                            "sell_all_after_split_loss", "rsplit_nonlowest_ok", "rsplit_frac_holding_ok", "rsplit_nonlowest_frac",
-                           "first_row_oversell", "first_row_roc_reg", "first_row_sfla_reg", "first_row_other_af_sell"])
+                           "first_row_oversell", "first_row_roc_reg", "first_row_sfla_reg", "first_row_other_af_sell",
+                           "twin_roc_reg", "long_affiliate_lookahead"])
         q = rng.choice([3, 7, 9, 10, 11, 30, 100])
         p = gen.rand_dec(rng, 1, 200, 2)
         af2 = rng.choice(["Spouse", "Kid"])
@@ -233,6 +234,20 @@ def c04_reason_family(rng, n):
         elif kind == "roc_reg":
             rows.append(mkrow("FOO", D(5), "Buy", "Default (R)", shares="4", aps=p, cur="CAD"))
             rows.append(mkrow("FOO", D(30), "RoC", "Default (R)", aps="0.1"))
+        elif kind == "twin_roc_reg":
+            # two securities rejected on the same day with word-for-word the same message (it names no security)
+            rows.append(mkrow("FOO", D(5), "Buy", "Default (R)", shares="4", aps=p, cur="CAD"))
+            rows.append(mkrow("FOO", D(30), "RoC", "Default (R)", aps="0.1"))
+            rows.append(mkrow("TWIN", D(1), "Buy", "", shares="3", aps=p, cur="CAD"))
+            rows.append(mkrow("TWIN", D(6), "Buy", "Default (R)", shares="4", aps=p, cur="CAD"))
+            rows.append(mkrow("TWIN", D(30), "RoC", "Default (R)", aps="0.1"))
+        elif kind == "long_affiliate_lookahead":
+            # the message names the offending sale at its very end, after a long affiliate name
+            laf = rng.choice(["Spouse of the account holder (joint)", "Family Trust Number Two Investments", "Kid"])
+            rows = [mkrow("FOO", D(0), "Buy", "", shares="50", aps=p, cur="CAD"),
+                    mkrow("FOO", D(0), "Buy", laf, shares="10", aps="10", cur="CAD"),
+                    mkrow("FOO", D(40), "Sell", laf, shares="5", aps="5", cur="CAD"),
+                    mkrow("FOO", D(50), "Sell", laf, shares="10", aps="5", cur="CAD")]
         elif kind == "sfla_reg":
             rows.append(mkrow("FOO", D(5), "Buy", af2 + " (R)", shares="4", aps=p, cur="CAD"))
             rows.append(mkrow("FOO", D(30), "SfLA", af2 + " (R)", shares="1", aps="2.5"))
@@ -683,6 +698,15 @@ def output_modes(V, pop, tier):
                 V.bump("rejections_followed_through_modes")
                 for e in errs:
                     first_line = e.split("\n")[0]
+                    sharing = sum(1 for es in msgs.values() if any(x.split("\n")[0] == first_line for x in es))
+                    if sharing > 1:
+                        for mode, blob in (("text", text_all), ("library text writer", r.get("text", "") + r.get("text_stderr", ""))):
+                            if blob.count(first_line) < sharing:
+                                V.violation("%d securities are rejected with the message %r but %s mode shows it %d time(s) [%s]"
+                                            % (sharing, first_line[:120], mode, blob.count(first_line), name),
+                                            {"kind": "history", "prop": "C04", "name": name, "history": h, "finding": {"what": "message shown once", "mode": mode}},
+                                            {"what": "rejection message lost in an output mode", "mode": mode})
+                                break
                     for mode, blob in (("text", text_all), ("--csv-output-dir", csv_all), ("library text writer", r.get("text", "") + r.get("text_stderr", ""))):
                         if first_line not in blob:
                             V.violation("rejection message of %s does not reach the user in %s mode: %r [%s]" % (sec, mode, first_line[:150], name),
